@@ -181,9 +181,15 @@ def run(db, chk):
     chk.rule("C11-A7", "handshake order: pause() awaits running jobs before publishing the pause "
              "jobs; stop() resumes a paused pool before joining; run_tasks() starts / resumes "
              "before publishing; resume() awaits the job flags after notifying", min_instances=4)
+    chk.rule("C11-A8", "pause() returns only after every worker has signalled that it took its pause job (a "
+             "wait loop on an atomic the pause jobs write follows run_tasks() on every path)", min_instances=1)
     chk.rule("C11-P1", "bounded exhaustive interpretation of the block partition arithmetic: for every "
              "pool size, range and minimum block size within the bound the blocks are disjoint, "
              "contiguous, non-empty, cover the range exactly and number at most the pool size",
+             min_instances=1)
+    chk.rule("C11-P2", "bounded exhaustive interpretation of run_blocks' dispatch, twice on the same pool object: "
+             "the published job slots call the user function on blocks that cover the requested range exactly "
+             "once, with distinct runner ids below the pool size -- nothing of an earlier call is dispatched again",
              min_instances=1)
     chk.rule("C11-A4", "resume() precedes resize() at every call site (shared with C08-B3)",
              min_instances=2)
@@ -422,6 +428,59 @@ def run(db, chk):
                    function=fn.bn, construct="run_tasks-order",
                    detail="" if ok else "jobs published to workers still blocked in their pause job")
 
+    # ---- A8: pause() returns only after every worker took its pause job --------------------------
+    # (a worker that has not yet seen its flag when stop() sets m_stopped leaves its loop with the
+    #  flag still set, and stop() -> resume() -> wait() then spins for ever)
+    signals = {}
+    for fn in pool_fns:
+        for c in calls(fn.body):
+            if c.get("op") == "=" and c.get("obj") is not None and "m_pause_jobs[" in pp(strip(c["obj"])):
+                for a in c.get("a", []):
+                    for n in walk(a):
+                        if n.get("k") == "lambda" and n.get("fid") in fn.unit.fns:
+                            lam = fn.unit.fns[n["fid"]]
+                            for c2 in calls(lam.body):
+                                acc = atomic_access(c2)
+                                if acc and acc[0] in ("rmw", "store") and c2.get("obj") is not None:
+                                    m = pp(strip(c2["obj"]))
+                                    if "->" in m:
+                                        signals.setdefault(m.split("->")[-1].split("[")[0], []).append(lam.loc(c2))
+    pause_fns = byname.get(POOL + "::pause", [])
+    if not pause_fns:
+        raise AnalysisBroken("C11-A8: thread_pool::pause not instantiated")
+
+    class PauseWalk(Walker):
+        """must-fact `acked`: no pause jobs were published since the last wait on the workers' signal"""
+        n_pub = 0
+
+        def visit(self, node, st):
+            if node.get("k") == "call" and node.get("bn") == POOL + "::run_tasks":
+                self.n_pub += 1
+                st = st.remove("ev", lambda x: x == "acked")
+            return st
+
+        def enter_loop(self, stmt, st):
+            if stmt.get("c") is not None:
+                rd = field_reads(self.fn, stmt["c"], db)
+                if any(m in signals for m in rd):
+                    st = st.add("ev", "acked")
+            return st
+    for fn in pause_fns:
+        pw = PauseWalk(fn)
+        pw.run(State().add("ev", "acked"))
+        if pw.n_pub == 0:
+            raise AnalysisBroken("C11-A8: pause() never publishes pause jobs")
+        for kind, node, st in pw.exits:
+            if kind == "throw":
+                continue
+            ok = st.has("ev", "acked")
+            chk.ob("C11-A8", "pause(): exit (%s): the pause jobs published are acknowledged through %s"
+                   % (kind, sorted(signals) or "(the pause jobs signal nothing)"), ok, where=fn.ploc, function=fn.bn,
+                   construct="pause-ack",
+                   detail="" if ok else "pause() returns before every worker has taken its pause job: a stop() "
+                   "issued right afterwards lets a worker exit with its job flag set, and stop() -> resume() -> "
+                   "wait() never returns")
+
     # ---- P1: block partition (bounded exhaustive interpretation of pure integer arithmetic) ------
     from ..interp import Interp, World, Obj, ThrowEx
     blk = {("<ctor>" if f.is_ctor else f.name): f for f in pool_fns if f.cls == POOL + "::blocks"}
@@ -471,6 +530,103 @@ def run(db, chk):
            function=blk["<ctor>"].bn, construct="block-partition",
            detail="" if not bad else "first failing (pool, range, min size): %r" % (bad[0],))
     chk.count_scenarios(n_cases, True)
+
+    # ---- P2: dispatch of run_blocks (bounded exhaustive interpretation) -----------------------------
+    from ..interp import PyVec, Closure, NOT_HANDLED, Sym
+    import copy as _copy
+    rb_fns = [f for f in pool_fns if f.cls == POOL and f.name == "run_blocks" and f.body]
+    if not rb_fns:
+        raise AnalysisBroken("C11-P2: thread_pool::run_blocks not instantiated")
+    prec = [r for r in rb_fns[0].unit.records if r["bn"] == POOL]
+    if not prec:
+        raise AnalysisBroken("C11-P2: thread_pool record not found")
+
+    class Recorder:
+        def __deepcopy__(self, memo):
+            return self
+
+    class DispatchWorld(World):
+        def __init__(self):
+            self.published = None
+            self.calls = []
+
+        def default_value(self, it, ts):
+            base = ts.replace("const ", "").strip()
+            if base.startswith("std::function<"):
+                return None
+            if base.startswith("std::vector<std::thread") or base.startswith("std::condition_variable") \
+                    or base.startswith("std::mutex") or base.startswith("std::atomic") \
+                    or base.startswith("std::vector<std::atomic"):
+                return Sym("sync", base[:30])
+            return NOT_HANDLED
+
+        def before_call(self, it, fn, call, callee, frame):
+            nm = callee.bn.split("::")[-1]
+            if callee.cls == POOL and nm == "set_tasks":
+                v = it.rv(it.eval(call["a"][0], frame))
+                self.published = list(v)
+                return None
+            if callee.cls == POOL and nm in ("run_tasks", "wait", "resume", "start"):
+                return None
+            if call.get("obj") is not None and callee.is_lambda:
+                o = it.rv(it.eval(call["obj"], frame))
+                if isinstance(o, Recorder):
+                    self.calls.append(tuple(it.rv(it.eval(a, frame)) for a in call.get("a", [])))
+                    return None
+            return NOT_HANDLED
+    pmax2 = 5 if chk.tier == "thorough" else 4
+    ranges = [(0, 0), (0, 1), (0, 2), (0, 3), (0, 5), (0, 9), (2, 4), (3, 12)]
+    n2 = 0
+    bad2 = []
+    for rb in rb_fns[: (len(rb_fns) if chk.tier == "thorough" else 2)]:
+        for pool in range(1, pmax2 + 1):
+            for msz in (0, 1, 3):
+                for r1 in ranges:
+                    for r2 in ranges:
+                        n2 += 1
+                        w = DispatchWorld()
+                        it = Interp(w, max_steps=200000)
+                        this = Obj(POOL, {})
+                        for fld in prec[0]["fields"]:
+                            ts = rb.unit.type(fld["t"])
+                            if ts.startswith("std::vector<std::function"):
+                                this.fields[fld["n"]] = PyVec()
+                            elif ts in ("bool",):
+                                this.fields[fld["n"]] = False
+                            else:
+                                this.fields[fld["n"]] = Sym("sync", fld["n"])
+                        this.fields["m_size"] = pool
+                        rec_fn = Recorder()
+                        try:
+                            for (lo, hi) in (r1, r2):
+                                w.published, w.calls = None, []
+                                args = [lo, hi, rec_fn] + ([msz] if len(rb.params) > 3 else [])
+                                it.call_fn(rb, this, args)
+                                jobs = [j for j in (w.published or []) if j is not None]
+                                for j in jobs:
+                                    if not isinstance(j, Closure):
+                                        raise AnalysisBroken("C11-P2: published job %r is not a closure" % (j,))
+                                    it.call_closure(j, [], None)
+                                seen = []
+                                for c in w.calls:
+                                    seen.extend(range(c[1], c[2]))
+                                ids = [c[0] for c in w.calls]
+                                ok = sorted(seen) == list(range(lo, hi)) and len(set(ids)) == len(ids) \
+                                    and all(isinstance(i, int) and 0 <= i < pool for i in ids) \
+                                    and (w.published is None or len(w.published) <= pool)
+                                if hi <= lo and w.calls:
+                                    ok = False
+                                if not ok and len(bad2) < 4:
+                                    bad2.append("pool %d, min size %d, run_blocks%r then run_blocks%r: the second call "
+                                                "dispatches %r" % (pool, msz, r1, r2, w.calls) if (lo, hi) == r2 and r1 != r2
+                                                else "pool %d, min size %d, run_blocks%r dispatches %r" % (pool, msz, (lo, hi), w.calls))
+                        except ThrowEx as ex:
+                            if len(bad2) < 4:
+                                bad2.append("pool %d: threw %s" % (pool, ex.text[:60]))
+    chk.ob("C11-P2", "run_blocks on the same pool twice: %d (pool <= %d, first range, second range, min size) "
+           "combinations over %d instantiation(s)" % (n2, pmax2, len(rb_fns)), not bad2, where=rb_fns[0].ploc,
+           function=rb_fns[0].bn, construct="dispatch", detail="; ".join(bad2[:2])[:500])
+    chk.count_scenarios(n2, True)
 
     # ---- A4 (= C08-B3) ---------------------------------------------------------------------------
     resize_safe = {}
